@@ -93,6 +93,9 @@ def pTrigFn : P TrigFn
   | "U" :: ts => do
       let (i, ts) ← pNat ts
       pure ((fun r => (r[i]?.getD []).any isPulse), ts)
+  | "K" :: ts => do
+      let (b, ts) ← pBool ts
+      pure ((fun _ => b), ts)
   | _ => none
 
 def pKeyFn : P (String × TrigFn) := fun ts => do
